@@ -115,12 +115,156 @@ var cfgPaths = []string{"/a", "/a/b", "/a-b", "/", "/jobs", "/int", "/x/y/z", "/
 var cfgHosts = []string{"example.com", "*.example.com", "api.example.com", "*", "EXAMPLE.org", "[::1]", "localhost", "*.b.example.com"}
 var cfgMethods = []string{"POST", "PUT", "GET", "DELETE", "PATCH"}
 
-func genRouteConfigText(r *rng) string {
+// one match block as generated: the text of its directives and what it means
+type genMatch struct {
+	lines []string
+	m     jroute // only the match fields are used
+}
+
+var hostNormCache = map[string]string{}
+
+// the compiled form of ONE host pattern, obtained by compiling a configuration that contains nothing else: element
+// normalisation is the compiler's, how elements are combined (lists, named matchers, routes) is the generator's
+func normHostPattern(h string) string {
+	if v, ok := hostNormCache[h]; ok {
+		return v
+	}
+	v := h
+	if c, err := compileText(fmt.Sprintf("pull_api {\n  auth token raw:t\n}\n/n {\n  match {\n    host \"%s\"\n  }\n  pull { path /pull/n }\n}\n", h)); err == nil && len(c.Routes) == 1 && len(c.Routes[0].Match.Hosts) == 1 {
+		v = c.Routes[0].Match.Hosts[0]
+	}
+	hostNormCache[h] = v
+	return v
+}
+
+func genMatchBlock(r *rng, indent string) genMatch {
+	g := genMatch{}
+	if r.chance(50) {
+		for k := 0; k < 1+r.intn(3); k++ {
+			m := pick(r, cfgMethods)
+			g.lines = append(g.lines, fmt.Sprintf("%smethod %s\n", indent, m))
+			g.m.Methods = append(g.m.Methods, m)
+		}
+	}
+	if r.chance(45) {
+		for k := 0; k < 1+r.intn(3); k++ {
+			h := pick(r, cfgHosts)
+			g.lines = append(g.lines, fmt.Sprintf("%shost \"%s\"\n", indent, h))
+			g.m.Hosts = append(g.m.Hosts, normHostPattern(h))
+		}
+	}
+	if r.chance(25) {
+		n, v := pick(r, []string{"X-Event", "x-event", "X-Kind"}), pick(r, []string{"push", "pull", "a b"})
+		g.lines = append(g.lines, fmt.Sprintf("%sheader \"%s\" \"%s\"\n", indent, n, v))
+		g.m.Headers = append(g.m.Headers, [2]string{http.CanonicalHeaderKey(n), v})
+	}
+	if r.chance(15) {
+		n := pick(r, []string{"X-Delivery", "x-event"})
+		g.lines = append(g.lines, fmt.Sprintf("%sheader_exists \"%s\"\n", indent, n))
+		g.m.HeaderExists = append(g.m.HeaderExists, http.CanonicalHeaderKey(n))
+	}
+	if r.chance(20) {
+		n, v := pick(r, []string{"env", "k"}), pick(r, []string{"prod", "v"})
+		g.lines = append(g.lines, fmt.Sprintf("%squery \"%s\" \"%s\"\n", indent, n, v))
+		g.m.Query = append(g.m.Query, [2]string{n, v})
+	}
+	if r.chance(12) {
+		n := pick(r, []string{"token", "env"})
+		g.lines = append(g.lines, fmt.Sprintf("%squery_exists \"%s\"\n", indent, n))
+		g.m.QueryExists = append(g.m.QueryExists, n)
+	}
+	if r.chance(25) {
+		for k := 0; k < 1+r.intn(2); k++ {
+			t := pick(r, []string{"203.0.113.0/24", "10.0.0.0/8", "2001:db8::/32", "127.0.0.1/32", "::1/128", "0.0.0.0/0", "198.51.100.1", "2001:db8::5"})
+			g.lines = append(g.lines, fmt.Sprintf("%sremote_ip \"%s\"\n", indent, t))
+			var pfx netip.Prefix
+			if p, err := netip.ParsePrefix(t); err == nil {
+				pfx = p.Masked()
+			} else {
+				a := netip.MustParseAddr(t)
+				pfx = netip.PrefixFrom(a, a.BitLen())
+			}
+			a := pfx.Addr()
+			g.m.RemoteIPs = append(g.m.RemoteIPs, jprefix{V4: a.Is4(), Base: new(big.Int).SetBytes(a.AsSlice()), Bits: pfx.Bits()})
+		}
+	}
+	return g
+}
+
+func (j *jroute) addMatch(m jroute) {
+	j.Methods = append(j.Methods, m.Methods...)
+	j.Hosts = append(j.Hosts, m.Hosts...)
+	j.Headers = append(j.Headers, m.Headers...)
+	j.HeaderExists = append(j.HeaderExists, m.HeaderExists...)
+	j.Query = append(j.Query, m.Query...)
+	j.QueryExists = append(j.QueryExists, m.QueryExists...)
+	j.RemoteIPs = append(j.RemoteIPs, m.RemoteIPs...)
+}
+
+// genRouteConfigText returns a configuration text and the routes it is MEANT to declare (in order), derived from the
+// generator's own choices and not from the compiler's output
+func genRouteConfigText(r *rng) (string, []jroute) {
 	var b strings.Builder
+	var want []jroute
 	b.WriteString("pull_api {\n  auth token raw:pulltok\n}\n")
+	var named []genMatch
+	// a family of routes built from one shared matcher plus one specific matcher each, without a block of their own
+	family := false
+	if r.chance(20) {
+		family = true
+		named = nil
+		kind := pick(r, []string{"method", "host"})
+		pool := append([]string{}, cfgMethods...)
+		if kind == "host" {
+			pool = []string{"example.com", "api.example.com", "localhost", "example.org", "a.b.example.com", "evil.com", "xexample.com"}
+		}
+		for i := len(pool) - 1; i > 0; i-- {
+			j := r.intn(i + 1)
+			pool[i], pool[j] = pool[j], pool[i]
+		}
+		mk := func(items []string) genMatch {
+			g := genMatch{}
+			for _, it := range items {
+				if kind == "host" {
+					g.lines = append(g.lines, fmt.Sprintf("  host \"%s\"\n", it))
+					g.m.Hosts = append(g.m.Hosts, normHostPattern(it))
+				} else {
+					g.lines = append(g.lines, fmt.Sprintf("  method %s\n", it))
+					g.m.Methods = append(g.m.Methods, it)
+				}
+			}
+			return g
+		}
+		nshared := pick(r, []int{1, 2, 3, 3, 3})
+		if nshared > len(pool)-2 {
+			nshared = len(pool) - 2
+		}
+		named = append(named, mk(pool[:nshared]))
+		for k := nshared; k < len(pool) && k < nshared+3; k++ {
+			named = append(named, mk(pool[k:k+1]))
+		}
+		for k, g := range named {
+			fmt.Fprintf(&b, "@m%d {\n%s}\n", k, strings.Join(g.lines, ""))
+		}
+	}
+	// named matchers, referenced by `match @a @b` (their lists are concatenated with the route's own block)
+	if r.chance(45) && false == (len(named) > 0) {
+		for k := 0; k < 1+r.intn(3); k++ {
+			g := genMatchBlock(r, "  ")
+			if len(g.lines) == 0 {
+				g.lines = []string{"  method POST\n"}
+				g.m.Methods = []string{"POST"}
+			}
+			fmt.Fprintf(&b, "@m%d {\n%s}\n", k, strings.Join(g.lines, ""))
+			named = append(named, g)
+		}
+	}
 	n := 1 + r.intn(7)
 	used := map[string]bool{}
 	pullN := 0
+	empty := func() jroute {
+		return jroute{Methods: []string{}, Hosts: []string{}, Headers: [][2]string{}, HeaderExists: []string{}, Query: [][2]string{}, QueryExists: []string{}, RemoteIPs: []jprefix{}, Targets: []string{}}
+	}
 	for i := 0; i < n; i++ {
 		p := pick(r, cfgPaths)
 		if used[p] {
@@ -128,63 +272,69 @@ func genRouteConfigText(r *rng) string {
 		}
 		used[p] = true
 		ch := r.weighted([]int{60, 8, 16, 16}) // bare, inbound, outbound, internal
+		w := empty()
+		w.Path = p
 		switch ch {
 		case 2:
 			fmt.Fprintf(&b, "outbound %s {\n  deliver \"http://127.0.0.1:9/out%d\" { timeout 1s }\n}\n", p, i)
+			w.Channel, w.Targets = "outbound", []string{fmt.Sprintf("http://127.0.0.1:9/out%d", i)}
+			want = append(want, w)
 			continue
 		case 3:
 			pullN++
 			fmt.Fprintf(&b, "internal %s {\n  pull { path /pull/p%d }\n}\n", p, pullN)
+			w.Channel, w.Targets = "internal", []string{"pull"}
+			want = append(want, w)
 			continue
 		case 1:
 			b.WriteString("inbound ")
 		}
+		w.Channel = "inbound"
 		fmt.Fprintf(&b, "%s {\n", p)
-		if r.chance(65) {
-			b.WriteString("  match {\n")
-			if r.chance(50) {
-				for k := 0; k < 1+r.intn(2); k++ {
-					fmt.Fprintf(&b, "    method %s\n", pick(r, cfgMethods))
-				}
+		if family && len(named) >= 2 && r.chance(75) {
+			x := 1 + r.intn(len(named)-1)
+			fmt.Fprintf(&b, "  match @m0 @m%d\n", x)
+			w.addMatch(named[0].m)
+			w.addMatch(named[x].m)
+		} else if r.chance(60) {
+			g := genMatchBlock(r, "    ")
+			fmt.Fprintf(&b, "  match {\n%s  }\n", strings.Join(g.lines, ""))
+			w.addMatch(g.m)
+		}
+		if !family && len(named) > 0 && r.chance(60) {
+			b.WriteString("  match")
+			for k := 0; k < 1+r.intn(2); k++ {
+				x := r.intn(len(named))
+				fmt.Fprintf(&b, " @m%d", x)
+				w.addMatch(named[x].m)
 			}
-			if r.chance(45) {
-				for k := 0; k < 1+r.intn(2); k++ {
-					fmt.Fprintf(&b, "    host \"%s\"\n", pick(r, cfgHosts))
-				}
-			}
-			if r.chance(25) {
-				fmt.Fprintf(&b, "    header \"%s\" \"%s\"\n", pick(r, []string{"X-Event", "x-event", "X-Kind"}), pick(r, []string{"push", "pull", "a b"}))
-			}
-			if r.chance(15) {
-				fmt.Fprintf(&b, "    header_exists \"%s\"\n", pick(r, []string{"X-Delivery", "x-event"}))
-			}
-			if r.chance(20) {
-				fmt.Fprintf(&b, "    query \"%s\" \"%s\"\n", pick(r, []string{"env", "k"}), pick(r, []string{"prod", "v"}))
-			}
-			if r.chance(12) {
-				fmt.Fprintf(&b, "    query_exists \"%s\"\n", pick(r, []string{"token", "env"}))
-			}
-			if r.chance(25) {
-				fmt.Fprintf(&b, "    remote_ip \"%s\"\n", pick(r, []string{"203.0.113.0/24", "10.0.0.0/8", "2001:db8::/32", "127.0.0.1/32", "::1/128", "0.0.0.0/0"}))
-			}
-			b.WriteString("  }\n")
+			b.WriteString("\n")
 		}
 		if r.chance(50) {
 			pullN++
 			fmt.Fprintf(&b, "  pull { path /pull/p%d }\n", pullN)
+			w.Targets = []string{"pull"}
 		} else {
 			for k := 0; k < 1+r.intn(2); k++ {
 				fmt.Fprintf(&b, "  deliver \"http://127.0.0.1:9/t%d_%d\" { timeout 1s }\n", i, k)
+				w.Targets = append(w.Targets, fmt.Sprintf("http://127.0.0.1:9/t%d_%d", i, k))
 			}
 		}
 		b.WriteString("}\n")
+		want = append(want, w)
 	}
-	return b.String()
+	return b.String(), want
 }
 
-func genRouteRequest(r *rng) *http.Request {
+func genRouteRequest(r *rng, want []jroute) *http.Request {
 	rawPaths := []string{"/a", "/a/", "/a//b", "/a/./b", "/a/../a/b", "/a-b", "/ab", "/A", "/jobs", "/jobs/x", "/int", "/int/x", "/", "/x/y/z/w", "/x/y", "/hooks", "/hooks/../a", "/a/b/c", "//a", "/a%2Fb", "/none"}
 	rp := pick(r, rawPaths)
+	var aimed *jroute
+	if len(want) > 0 && r.chance(50) {
+		// aimed at one of the declared routes: its path (or below it), and often one of its hosts / methods
+		aimed = &want[r.intn(len(want))]
+		rp = aimed.Path + pick(r, []string{"", "", "/x", "/"})
+	}
 	method := pick(r, []string{"POST", "POST", "POST", "PUT", "GET", "DELETE", "post", "PATCH"})
 	req := httptest.NewRequest(method, "http://placeholder"+rp, bytes.NewReader([]byte("{}")))
 	if r.chance(40) {
@@ -200,6 +350,20 @@ func genRouteRequest(r *rng) *http.Request {
 		req.Header.Add(pick(r, []string{"X-Event", "x-event", "X-EVENT", "X-Kind", "X-Delivery"}), pick(r, []string{"push", "pull", "push, other", "other,push", "a b", ""}))
 		if r.chance(30) {
 			req.Header.Add("X-Event", pick(r, []string{"push", "zzz"}))
+		}
+	}
+	if aimed != nil {
+		if len(aimed.Hosts) > 0 && r.chance(70) {
+			h := pick(r, aimed.Hosts)
+			if strings.HasPrefix(h, "*.") {
+				h = "t." + h[2:]
+			}
+			if h != "*" {
+				req.Host = h
+			}
+		}
+		if len(aimed.Methods) > 0 && r.chance(70) {
+			req.Method = pick(r, aimed.Methods)
 		}
 	}
 	req.RemoteAddr = pick(r, []string{"203.0.113.9:5555", "10.1.2.3:80", "[2001:db8::5]:443", "127.0.0.1:1", "[::1]:1", "[::ffff:10.1.2.3]:99", "garbage", "", "198.51.100.1:1", "203.0.113.9", "[fe80::1%eth0]:80"})
@@ -238,11 +402,23 @@ func cmdIngress(args []string) error {
 	}
 
 	for c := 0; c < *nc; c++ {
-		text := genRouteConfigText(r)
+		text, want := genRouteConfigText(r)
 		cfg, err := config.Parse([]byte(text))
 		if err != nil {
 			emit(map[string]interface{}{"k": "cfgerror", "stage": "parse", "err": err.Error(), "text": text})
 			continue
+		}
+		rewritten := false
+		if r.chance(30) {
+			// the file as a management mutation leaves it: parsed, formatted, written, parsed again
+			if f, err := config.Format(cfg); err == nil {
+				if cfg2, err := config.Parse(f); err == nil {
+					cfg, rewritten = cfg2, true
+				} else {
+					emit(map[string]interface{}{"k": "cfgerror", "stage": "parse-formatted", "err": err.Error(), "text": string(f)})
+					continue
+				}
+			}
 		}
 		compiled, res := config.Compile(cfg)
 		if !res.OK {
@@ -254,12 +430,15 @@ func cmdIngress(args []string) error {
 			emit(map[string]interface{}{"k": "cfgerror", "stage": "runtime", "err": err.Error(), "text": text})
 			continue
 		}
-		routes := make([]jroute, 0, len(compiled.Routes))
+		// the model is given the routes the text was MEANT to declare; the compiler's own view is recorded next to it
+		routes := want
+		compiledRoutes := make([]jroute, 0, len(compiled.Routes))
 		for _, cr := range compiled.Routes {
-			routes = append(routes, routeJSON(cr, "pull"))
+			compiledRoutes = append(compiledRoutes, routeJSON(cr, "pull"))
 		}
+		emit(map[string]interface{}{"k": "routecfg", "cfg": c, "text": text, "rewrittenByFmt": rewritten, "want": want, "compiled": compiledRoutes})
 		for q := 0; q < *nreq; q++ {
-			req := genRouteRequest(r)
+			req := genRouteRequest(r, want)
 			hdrBefore := sortedPairs(req.Header.Clone())
 			cleaned := path.Clean(req.URL.Path)
 			resolved, ok := rt.ResolveIngress(req, cleaned)
